@@ -162,6 +162,9 @@ let run_leaf toks =
                 done
               done) res;
             string_of_int !cnt ^ " " ^ pr !sum ^ " " ^ pr !first ^ " " ^ pr !last ^ " segs=" ^ string_of_int (List.length segs)))
+  | ["eratself"; l1; kb; a; b] ->
+      (* the self-contained model kernel (produces its own sieving primes, decodes with the model's [surviving]): the whole list *)
+      String.concat " " (List.map pr (erat_self (z l1) (z kb) (z a) (z b)))
   | ["gss"; user; l1; l2; l3; s1; s2; s3] -> pr (get_sieve_size (z user) { c_l1 = z l1; c_l2 = z l2; c_l3 = z l3; c_l1s = z s1; c_l2s = z s2; c_l3s = z s3 })
   | ["nbuf"; pcu; a; b] -> let (c, s) = next_buffer (z pcu) (z a) (z b) in pr c ^ " " ^ pr s
   | ["is_prime"; x] -> if is_prime (z x) then "1" else "0"
